@@ -66,7 +66,9 @@ TRASHDIR_OPT = [None, '/v/td', '/h/td']
 FALLBACK = [(False, None), (True, None), (False, '1'), (True, '1')]
 TOP_STATES = ['absent', 'sticky', 'nonsticky', 'link-sticky', 'link-nonsticky', 'file']
 ALT_STATES = ['absent', 'dir', 'file']
-PRE = ['none', 'pair', 'orphan', 'lone-info', 'long-name', 'long-name-orphan-file', 'long-name-orphan-dir']
+PRE = ['none', 'pair', 'orphan', 'lone-info', 'long-name', 'long-name-orphan-file', 'long-name-orphan-dir', 'dot-trashinfo-name',
+       'dot-trashinfo-name-collision']
+TINAME = 'holiday.trashinfo'
 LONG = 'L' * 250
 LONG_T1 = 'L' * 238 + '_1'  # payload name of the first truncated info name
 
@@ -88,7 +90,7 @@ def entry_nodes(kind, path='/v/d/x'):
 
 
 def make_world(kind, top, alt, pre):
-    name = LONG if PRE[pre].startswith('long-name') else 'x'
+    name = LONG if PRE[pre].startswith('long-name') else (TINAME if PRE[pre].startswith('dot-trashinfo-name') else 'x')
     nodes = [W.d('/h'), W.d('/v/d'), W.d('/v/d/sub'), W.f('/v/d/sub/keep', 'K', 0o644, 900),
              W.l('/v/lp', '/v/d', 901), W.f('/v/n/inner', 'INNER', 0o644, 902), W.d('/v/n/nd'),
              W.f('/v/n/nd/deep', 'DEEP', 0o644, 903),
@@ -126,6 +128,10 @@ def make_world(kind, top, alt, pre):
             nodes.append(W.f(td + '/files/' + LONG_T1, 'OLD-LONG', 0o644, 913))
         if p == 'long-name-orphan-dir':
             nodes += [W.d(td + '/files/' + LONG_T1), W.f(td + '/files/' + LONG_T1 + '/keep', 'OLD-IN', 0o644, 914)]
+        if p == 'dot-trashinfo-name-collision':
+            # a complete entry called 'holiday' whose info file has the very name of the new argument
+            nodes.append(W.f(td + '/files/holiday', 'OLD-HOLIDAY', 0o644, 915))
+            nodes.append(W.f(td + '/info/holiday.trashinfo', '[Trash Info]\nPath=d/holiday\nDeletionDate=2019-01-01T00:00:00\n', 0o600, 916))
         if p in ('pair', 'lone-info'):
             nodes.append(W.f(td + '/info/x.trashinfo', '[Trash Info]\nPath=d/x\nDeletionDate=2019-01-01T00:00:00\n',
                              0o600, 912))
@@ -135,10 +141,11 @@ def make_world(kind, top, alt, pre):
 def scenario(kind, sp, mode, td, fb, top, alt, pre, verbose):
     world = make_world(kind, top, alt, pre)
     arg, target, family = SPELLINGS[sp]
-    if PRE[pre].startswith('long-name') and family == 'entry':
+    if (PRE[pre].startswith('long-name') or PRE[pre].startswith('dot-trashinfo-name')) and family == 'entry':
+        nm = LONG if PRE[pre].startswith('long-name') else TINAME
         cut = len(arg.rstrip('/'))
-        arg = arg[:cut - 1] + LONG + arg[cut:]
-        target = target[:-1] + LONG
+        arg = arg[:cut - 1] + nm + arg[cut:]
+        target = target[:-1] + nm
     opts, stdin = MODES[mode]
     args = list(opts)
     if TRASHDIR_OPT[td]:
@@ -235,10 +242,10 @@ def w_spell(kind: int, sp: int, mode: int) -> str:
 
 def w_dirs(kind: int, top: int, alt: int, pre: int, sp: int) -> str:
     """
-    pre: 0 <= kind < 6 and 0 <= top < 6 and 0 <= alt < 3 and 0 <= pre < 7 and 0 <= sp < 3
+    pre: 0 <= kind < 6 and 0 <= top < 6 and 0 <= alt < 3 and 0 <= pre < 9 and 0 <= sp < 3
     post: _ == ''
     """
-    return _case(rt.sel(kind, 6), rt.of([0, 4, 6], sp), 0, 0, 0, rt.sel(top, 6), rt.sel(alt, 3), rt.sel(pre, 7), 0)
+    return _case(rt.sel(kind, 6), rt.of([0, 4, 6], sp), 0, 0, 0, rt.sel(top, 6), rt.sel(alt, 3), rt.sel(pre, 9), 0)
 
 
 def w_opts(kind: int, td: int, fb: int, alt: int, verbose: int, sp: int) -> str:
@@ -261,10 +268,10 @@ def w_full_opts(kind: int, sp: int, mode: int, td: int, fb: int) -> str:
 def w_full_dirs(kind: int, sp: int, fb: int, top: int, alt: int, pre: int) -> str:
     """
     pre: PARTITION is None or kind == PARTITION
-    pre: 0 <= kind < 6 and 0 <= sp < 22 and 0 <= fb < 4 and 0 <= top < 6 and 0 <= alt < 3 and 0 <= pre < 7
+    pre: 0 <= kind < 6 and 0 <= sp < 22 and 0 <= fb < 4 and 0 <= top < 6 and 0 <= alt < 3 and 0 <= pre < 9
     post: _ == ''
     """
-    return _case(rt.sel(kind, 6), rt.sel(sp, 22), 0, 0, rt.sel(fb, 4), rt.sel(top, 6), rt.sel(alt, 3), rt.sel(pre, 7), 0)
+    return _case(rt.sel(kind, 6), rt.sel(sp, 22), 0, 0, rt.sel(fb, 4), rt.sel(top, 6), rt.sel(alt, 3), rt.sel(pre, 9), 0)
 
 
 PUT_FUNCS = ['trashcli.put.main.main', 'TrashPutCmd.run_put', 'Parser.parse_args', 'Context.trash_each',
@@ -286,7 +293,7 @@ def obligations(tier):
         CH('W_spelling_x_kind_x_mode', MOD, 'w_spell', timeout=600, engine='W', regime='selector',
            encodes=PUT_FUNCS, stubs=STUBS, bounds='6 kinds x 22 spellings x 8 mode/reply combinations; default options'),
         CH('W_trashdir_states', MOD, 'w_dirs', timeout=900, engine='W', regime='selector',
-           encodes=PUT_FUNCS, stubs=STUBS, bounds='6 kinds x 6 .Trash states x 3 .Trash-uid states x 7 pre-existing (incl. 250-byte names with an orphan on the truncated name) x 3 spellings'),
+           encodes=PUT_FUNCS, stubs=STUBS, bounds='6 kinds x 6 .Trash states x 3 .Trash-uid states x 9 pre-existing (incl. 250-byte names with an orphan on the truncated name, names ending in .trashinfo) x 3 spellings'),
         CH('W_options', MOD, 'w_opts', timeout=900, engine='W', regime='selector',
            encodes=PUT_FUNCS, stubs=STUBS, bounds='6 kinds x 3 --trash-dir x 4 fallback x 3 .Trash-uid x 3 -v x 3 spellings'),
     ]
@@ -296,5 +303,5 @@ def obligations(tier):
                       bounds='6 kinds x 22 spellings x 8 modes x 3 --trash-dir x 4 fallback switches (12672 cases)'))
         obs.append(CH('W_spelling_fallback_dirstates', MOD, 'w_full_dirs', timeout=6000, partitions=list(range(6)), twin=False, engine='W',
                       regime='selector', encodes=PUT_FUNCS, stubs=STUBS,
-                      bounds='6 kinds x 22 spellings x 4 fallback x 6 .Trash x 3 .Trash-uid x 7 pre-existing states (66528 cases)'))
+                      bounds='6 kinds x 22 spellings x 4 fallback x 6 .Trash x 3 .Trash-uid x 9 pre-existing states (85536 cases)'))
     return obs
